@@ -149,6 +149,10 @@ def dispatch (op : String) (args : List Sexp) : String :=
   | "c20.abs2gds" => "unsupported"
   | "c20.abs2lef" => "unsupported"
   | "c20.lefrt" => "unsupported"
+  | "serde.gds" => "unsupported"
+  | "serde.gdsbytes" => "unsupported"
+  | "serde.lef" => "unsupported"
+  | "serde.lefspecial" => "unsupported"
   | "raw.flatten" => opFlatten args
   | "geom.contains" => opContains args
   | "dep.generic" => opDep false args
